@@ -496,7 +496,7 @@ pub fn run_c14(ctx: &Ctx, rep: &mut Report) {
             _ => None,
         }
         .unwrap_or_else(|| mixed_start(rng, gid, &corpus));
-        let cfg = WalkCfg { max_plies: if miri { 3 } else { rng.range(4, 40) }, null_per_mille: 0, stop_on_divergence: true, follow_library: false };
+        let cfg = WalkCfg { max_plies: if miri { 3 } else { rng.range(4, 40) }, null_per_mille: 0, stop_on_divergence: true, follow_library: false, echo_per_mille: 50 };
         let mut mon = C14 { variant: ctx.variant };
         playout(&start, &cfg, rng, &mut mon, rep);
     });
